@@ -260,12 +260,16 @@ def comp_hint_cases(rng, n):
         if not usage and not msgs:
             msgs = ["only message"]
         listing = ci % 3 == 2 and mode == "emacs"      # (no default key lists completions in the Vi keymaps)
-        comp = {"cands": [{"v": "zeta%d" % i} for i in range(3)] if listing else [], "usage": usage, "msgs": msgs, "byword": False}
+        # what is listed: a few short names, or many names of double-width / accented characters (several rows of the list)
+        names = ["zeta%d" % i for i in range(3)]
+        if ci % 6 == 5:
+            names = [rng.choice(["候補", "中文文件", "日本語のファイル", "한국어", "éèàü", "файл"]) + str(i) for i in range(rng.choice([6, 12, 24]))]
+        comp = {"cands": [{"v": v} for v in names] if listing else [], "usage": usage, "msgs": msgs, "byword": False}
         cs = {"id": "c04u-%d" % ci, "inputrc": ("set editing-mode vi\n" if mode == "vi" else "") + ("set usage-hint-always on\n" if ci % 2 else ""),
-              "w": 80, "h": 24, "prompt": prompt, "screen": True, "wrap": "none", "setups": [], "sessions": [], "comp": comp}
+              "w": rng.choice([80, 80, 60, 40]) if listing else 80, "h": 24, "prompt": prompt, "screen": True, "wrap": "none", "setups": [], "sessions": [], "comp": comp}
         for si in range(3):
             sess = []
-            buf = "\n".join(gen_text(rng, rng.randint(0, 60), "ascii") for _ in range(rng.choice([1, 1, 2])))
+            buf = "\n".join(gen_text(rng, rng.randint(0, 30 if listing else 60), "ascii") for _ in range(rng.choice([1, 1, 2])))
             smode = "emacs" if mode == "emacs" else "vi-insert"
             cs["setups"].append(setup(buf, len(buf), smode))
             sess.append(SETUP_KEY)
